@@ -1175,6 +1175,51 @@ def rankdef_stream(ck):
 # ------------------------------------------------------------------------------------------
 # corpus / run / search / replay
 # ------------------------------------------------------------------------------------------
+def buffer_reuse_stream(ck, count):
+    """The kernels are functions of the *contents* of their arguments: the same array objects refilled in place between
+    calls (a preallocated matrix buffer, `matrix[:, 0] *= 10`) must give the answer for the new contents.  (Seeded change
+    C01-3: a QR cache keyed on the identity of the matrix object returned the clp / residual of the old contents.)"""
+    ks = kernels()
+    rng = ck.rng
+    for _ in range(count):
+        insts = [rand_instance(rng, small=True) for _ in range(3)]
+        if insts[0]["n"] == 0:
+            continue
+        m, n = insts[0]["m"], insts[0]["n"]
+        same = [realize(i) for i in insts if (i["m"], i["n"]) == (m, n)]
+        base = realize(insts[0])
+        A_buf = np.array(base[2], dtype=np.float64, order="F")
+        y_buf = np.array(base[3], dtype=np.float64)
+        steps = []
+        # step 0: the buffer as it is; step 1: one column scaled in place; step 2: refilled with another matrix of the
+        # same shape (when one was drawn) or with the transposed-order copy of itself perturbed
+        steps.append(("as-is", None))
+        steps.append(("column-scaled-in-place", lambda: A_buf.__setitem__((slice(None), 0), A_buf[:, 0] * (-3.0 if n > 1 else 2.0))))
+        if len(same) > 1:
+            other = same[1][2]
+            steps.append(("refilled-in-place", lambda other=other: np.copyto(A_buf, other)))
+        steps.append(("data-refilled-in-place", lambda: np.copyto(y_buf, y_buf[::-1] * 2.0 + 1.0)))
+        for kernel in ("vp", "nnls"):
+            A_buf[...] = base[2]
+            y_buf[...] = base[3]
+            for name, mutate in steps:
+                if mutate is not None:
+                    mutate()
+                A_now, y_now = A_buf.copy(), y_buf.copy()
+                kappa = cond_of(A_now)
+                if not kappa <= 1e8:
+                    break
+                out = call(ks[kernel], A_buf, y_buf)
+                ck.case(("buffer-reuse", kernel, name, A_now.tobytes(), y_now.tobytes()), bool(np.any(y_now != 0)))
+                ck.count(f"stream:buffer-reuse:{name}")
+                inst = {"family": "buffer-reuse:" + name, "ykind": "generic", "m": m, "n": n,
+                        "A": [[float(x).hex() for x in row] for row in A_now], "y": [float(x).hex() for x in y_now]}
+                for key, what, obs in oracle(ck, kernel, inst, A_now, y_now, out, kappa):
+                    ck.violation(key + ":buffer-reused", what + f" — same array objects as in the previous call, {name}",
+                                 {"kernel": kernel, "step": name, "A_hex": inst["A"], "y_hex": inst["y"], "observed": obs,
+                                  "history": "the kernel was called before on the same array objects with other contents"})
+
+
 def corpus_instances():
     out = []
     for c in core.load_corpus(PROP):
@@ -1216,6 +1261,7 @@ def run(ck):
     flush(ck, batch)
     optimize_stream(ck, batch, ck.n(12, 60))
     flush(ck, batch)
+    buffer_reuse_stream(ck, ck.n(25, 400))
     if not ck.quick:
         # oracle-only sweep (no Lean): many more matrices through both kernels
         for i in range(20000):
@@ -1262,6 +1308,20 @@ def replay(ck, case):
         for k, o in e["outs"].items():
             print("REAL", k, {kk: (vv.tolist() if isinstance(vv, np.ndarray) else vv) for kk, vv in o.items()})
     flush(ck, batch)
+    if "A_hex" in c:
+        # buffer-reuse case: first a call on the same array objects holding other contents, then the recorded contents
+        A = np.array([[float.fromhex(x) for x in row] for row in c["A_hex"]], dtype=np.float64)
+        y = np.array([float.fromhex(x) for x in c["y_hex"]], dtype=np.float64)
+        A_buf = np.asfortranarray(np.eye(A.shape[0], A.shape[1]) + 1.0)
+        y_buf = np.ones_like(y)
+        f = kernels()[c["kernel"]]
+        call(f, A_buf, y_buf)
+        np.copyto(A_buf, A)
+        np.copyto(y_buf, y)
+        out = call(f, A_buf, y_buf)
+        inst = {"family": "buffer-reuse:replay", "ykind": "generic", "m": A.shape[0], "n": A.shape[1], "A": c["A_hex"], "y": c["y_hex"]}
+        for key, what, obs in oracle(ck, c["kernel"], inst, A, y, out, cond_of(A)):
+            ck.violation(key + ":buffer-reused", what, c)
     if "residual_function" in c or case.get("key", "").startswith("dispatch"):
         dispatch_stream(ck)
     if "spec" in c:
